@@ -20,7 +20,11 @@ EXPLANATION = (
     "STRUCTURAL (for every path of the normalised _flattenElement): each write() argument is, by data flow, markup literal / tag or attribute name / output of the escaper of its "
     "context (dataEscaper(root) in the text branch, escapedCDATA / escapedComment of root.data in theirs) / the numeric character reference - raw root, root.data or attribute "
     "values never reach write(); attribute values recurse only through writeWithAttributeEscaping(write) + attributeEscapingDoneOutside, children reset to escapeForContent, "
-    "no other step overrides the escaper, keepGoing forwards its context; buffered writes are delivered in order.  FINITE-EXHAUSTIVE: content and attribute escapers on all "
+    "no other step overrides the escaper, keepGoing forwards its context; buffered writes are delivered in order; between escaper and sink nothing rewrites the bytes: the writer flatten() hands down is the caller's writer or a "
+    "forwarder of its unchanged argument (sink/output-not-rewritten); a slot frame answers by key PRESENCE only - the guards of `return <frame value>` never mention the value "
+    "(slot/decision-by-presence); the frame a Tag pushes is popped on every path leaving its branch (slot/frame-popped: it is NOT - known finding F28c).  FINITE-EXHAUSTIVE: "
+    "_getSlotValue over stacks of 0..3 frames x {None, empty, other key, key with a truthy / each falsy value} x default {None, falsy, truthy}: the innermost frame holding the key "
+    "answers, whatever the value (slot/nearest-frame-wins); content and attribute escapers on all "
     "256 bytes and their neighbourhoods (single-byte replacement chain checked).  BOUNDED second layer (bounded evidence only for: comment/CDATA escapers - string grids against "
     "tokenizer oracles, F28 fixed, F28b known; parse-back of whole trees): "
     "Decides: (a) provenance at every write(...) of _flattenElement: the argument is a markup literal from the frozen set, dataEscaper(root), "
@@ -31,8 +35,9 @@ EXPLANATION = (
     "string up to length 5 (4 for attributes) over a hostile alphabet and compared with oracles: text/attribute output contains no raw < > (\") and "
     "un-escapes to the input with '&' rewritten first; CDATA output re-parses as CDATA sections whose concatenation is the input; comment output must "
     "be consumed as exactly one comment by an HTML5 comment tokenizer (F28, fixed: data starting with '>' or '->' or containing '--!>' ended the comment "
-    "early; the revert is a mutant) and be well-formed XML comment data - it is not (known finding F28b: '--' is not well-formed XML). Not decided: structural equality after re-parsing "
-    "whole documents, renderers' own output."
+    "early; the revert is a mutant) and be well-formed XML comment data - it is not (known finding F28b: '--' is not well-formed XML). The tree family is flattened through flatten() itself (the public writer chain) and includes every hostile value - the empty ones too - as a "
+    "slot fill under an outer fill and a default, sibling rows with their own fills, and comment / CDATA / text data with a control character inside '-->', '--!>', ']]>' or before a "
+    "leading '>' (judged with the tokenizer oracles).  Not decided: structural equality after re-parsing whole documents, renderers' own output."
 )
 RULE_KINDS = {
     "sink/output-not-rewritten": "structural", "slot/decision-by-presence": "structural", "slot/frame-popped": "structural", "slot/frame-scope": "bounded", "slot/nearest-frame-wins": "finite-exhaustive", "flatten/terminators-with-control-characters": "bounded",
